@@ -5,4 +5,5 @@ FE = "fault_enumeration"
 
 REGISTRY = {
     "C01": {"level": MC, "parts": [{"pkg": "pkg/trie/inmemory", "run": "TestVerif_C01"}]},
+    "C02": {"level": MC, "parts": [{"pkg": "pkg/trie/inmemory", "run": "TestVerif_C02"}]},
 }
